@@ -35,8 +35,8 @@ Record lcase := mkl {
   l_target : Z; l_gs : list gvar; l_lines : list hline; l_keep : list bool;
   l_ids : option (list Z); l_fg : bool;
   l_obs : res (list orow);               (* rows of the .ld table / H lines of the .hap output *)
-  l_sym : option (Z * res (option Z))    (* a second run with target := listed item B: the R printed for
-                                            the original target in B's listing *)
+  l_sym : list (Z * res (option Z))      (* one further run per listed item B with target := B: the R
+                                            printed for the original target in B's listing *)
 }.
 
 Definition hap_ids (lines : list hline) : list Z := map h_id (load_haps None lines).
@@ -92,14 +92,15 @@ Definition holds_ld (c : lcase) : bool :=
           && forallb (fun id => countZ id (map fst rows) =? 1) (requested c)
           (* the target haplotype itself is not listed *)
           && negb (target_is_hap c && memZ (l_target c) (map fst rows))
-          (* LD(A,B) = LD(B,A) *)
-          && match l_sym c with
-             | None => true
-             | Some (b, Ok r) => match dosage_of c (l_fg c) b with
-                                 | Some d => r_near r (corr td d)
-                                 | None => false end
-             | Some (_, Err k) => k =? E_Unobserved
-             end
+          (* LD(A,B) = LD(B,A): in the run with a listed item B as the target, the R printed for
+             the original target is the correlation of B's dosage with the target's *)
+          && forallb (fun s : Z * res (option Z) =>
+                        match snd s with
+                        | Ok r => match dosage_of c (l_fg c) (fst s) with
+                                  | Some d => r_near r (corr d td)
+                                  | None => false end
+                        | Err k => k =? E_Unobserved
+                        end) (l_sym c)
       end
   end.
 
@@ -124,13 +125,11 @@ Definition model_sym (c : lcase) (b : Z) : res (option (Z * Q)) :=
                     | None => Err E_Unobserved end).
 
 Definition sym_agree (c : lcase) : bool :=
-  match l_sym c with
-  | None => true
-  | Some (b, o) => match model_sym c b, o with
-                   | Ok m, Ok r => r_near r m
-                   | Err k, Err k' => k =? k'
-                   | _, _ => false end
-  end.
+  forallb (fun s : Z * res (option Z) =>
+             match model_sym c (fst s), snd s with
+             | Ok m, Ok r => r_near r m
+             | Err k, Err k' => k =? k'
+             | _, _ => false end) (l_sym c).
 
 Definition check_ld (c : lcase) : bool * bool :=
   (match model_ld c, l_obs c with
